@@ -62,6 +62,10 @@ ALT = {
     "A_IX": ("ALTTAB", "CREATE INDEX ix ON a1 (p, q);"),
     "A_T1": ("T1", "ALTER TABLE s1.t1 ADD CHECK (a > 0);"),
     "A_DROP": ("ALTTAB", "ALTER TABLE a1 DROP COLUMN q;"),
+    # wave 8: ALTER statements whose result the output layer appends IN PLACE to a table that declared no column / no check of its own
+    "A_LIKE": ("LIKE", "ALTER TABLE l1 ADD COLUMN nc int;"),
+    "A_LIKEFK": ("LIKE", "ALTER TABLE l1 ADD CONSTRAINT lf FOREIGN KEY (nk) REFERENCES o (x);"),
+    "A_CHK2": ("ALTTAB", "ALTER TABLE a1 ADD CHECK (q < 9);"),
 }
 UNS = {
     "SEL": "SELECT * FROM t1 WHERE a = 1;", "INS": "INSERT INTO t1 VALUES (1, 'x');", "GRANT": "GRANT SELECT ON t1 TO joe;",
